@@ -310,7 +310,7 @@ class G:
         if self.st.name in ("MYSQL", "HIVE"):
             if k < 78: return self.create_table()
             if k < 80: return N.ASTAnalyzeTableStatement(table_name=self.table_name(), **({} if self.st.name == "MYSQL" else dict(partition=self.opt(self.partition, 0.4), for_columns=self.p(0.3), cache_metadata=self.p(0.3), noscan=self.p(0.3))))
-        if k < 84: return N.ASTCreateTableAsStatement(table_name=self.table_name(), select_statement=self.query(1))
+        if k < 84: return N.ASTCreateTableAsStatement(table_name=self.table_name(), if_not_exists=self.p(0.4), select_statement=self.query(1))
         if k < 90: return self.alter()
         if k < 92: return N.ASTDropTableStatement(if_exists=self.p(0.5), table_name=self.table_name())
         if k < 94: return N.ASTTruncateTable(table_name=self.table_name())
